@@ -40,6 +40,9 @@ var weirdVersions = []string{"", "0", "-1", "+3", "007", "abc", "999999999999999
 
 func genSpec(rng *rand.Rand, nkeys int) world.Spec {
 	k := cacheKeys[rng.Intn(nkeys)]
+	if rng.Intn(25) == 0 {
+		k = [2]string{"n1", pick(rng, "system:node", "Upper_Case", "a b")} // not DNS-1123
+	}
 	if k[0] == "n-1" || k[0] == "n" {
 		// the two "colliding" slots of the universe hold this run's confusable pair
 		pair := confusablePairs[GenIdx%len(confusablePairs)]
